@@ -42,8 +42,8 @@ suite!(t_duration_s, 0, 0, 4, [sinks], Duration); //@ group=b tier=thorough
 suite!(t_string1, 0, 1, 8, [enc dec sinks], String); //@ group=b tier=quick
 suite!(t_string1_thorough, 0, 1, 8, [delim], String); //@ group=b tier=thorough
 suite!(t_string1_off, 0, 1, 8, [trunc], String); //@ group=b tier=off
-suite!(t_string2, 0, 2, 10, [enc trunc], String); //@ group=b tier=thorough
-suite!(t_string2_off, 0, 2, 10, [dec delim], String); //@ group=b tier=off
+suite!(t_string2, 0, 2, 10, [enc], String); //@ group=b tier=thorough
+suite!(t_string2_off, 0, 2, 10, [trunc dec delim], String); //@ group=b tier=off
 suite!(t_vecu8, 3, 0, 8, [enc dec delim], Vec<u8>); //@ group=b tier=quick
 suite!(t_vecu8_thorough, 3, 0, 8, [trunc], Vec<u8>); //@ group=b tier=thorough
 suite!(t_vecu8_s, 3, 0, 8, [sinks], Vec<u8>); //@ group=b tier=thorough
@@ -78,7 +78,8 @@ suite!(t_tuple8_off, 0, 0, 4, [trunc], (u8, u16, u8, u8, bool, u8, u8, i8)); //@
 
 // ---- sequences (element count <= maxv, every count enumerated)
 suite!(t_vec_u16, 2, 0, 6, [enc dec delim], Vec<u16>); //@ group=b tier=quick
-suite!(t_vec_u16_thorough, 2, 0, 6, [trunc sinks], Vec<u16>); //@ group=b tier=thorough
+suite!(t_vec_u16_thorough_off, 2, 0, 6, [trunc], Vec<u16>); //@ group=b tier=off
+suite!(t_vec_u16_thorough, 2, 0, 6, [sinks], Vec<u16>); //@ group=b tier=thorough
 suite!(t_vec_u16_3, 3, 0, 6, [enc dec delim], Vec<u16>); //@ group=b tier=thorough
 suite!(t_vec_u16_3_off, 3, 0, 6, [trunc], Vec<u16>); //@ group=b tier=off
 suite!(t_list_u16, 2, 0, 6, [enc dec delim], LinkedList<u16>); //@ group=b tier=thorough
@@ -86,8 +87,8 @@ suite!(t_list_u16_off, 2, 0, 6, [trunc], LinkedList<u16>); //@ group=b tier=off
 suite!(t_list_u16_s, 2, 0, 6, [sinks], LinkedList<u16>); //@ group=b tier=thorough
 suite!(t_list_u8, 2, 0, 6, [enc dec delim], LinkedList<u8>); //@ group=b tier=thorough
 suite!(t_list_u8_off, 2, 0, 6, [trunc], LinkedList<u8>); //@ group=b tier=off
-suite!(t_arr_u16_0, 0, 0, 6, [enc dec], [u16; 0]); //@ group=b tier=thorough
-suite!(t_arr_u16_0_off, 0, 0, 6, [delim trunc], [u16; 0]); //@ group=b tier=off
+suite!(t_arr_u16_0, 0, 0, 6, [enc], [u16; 0]); //@ group=b tier=thorough
+suite!(t_arr_u16_0_off, 0, 0, 6, [dec delim trunc], [u16; 0]); //@ group=b tier=off
 suite!(t_arr_u16_1, 0, 0, 6, [enc dec delim], [u16; 1]); //@ group=b tier=thorough
 suite!(t_arr_u16_1_off, 0, 0, 6, [trunc], [u16; 1]); //@ group=b tier=off
 suite!(t_arr_u16_3, 0, 0, 6, [enc dec delim], [u16; 3]); //@ group=b tier=quick
@@ -115,7 +116,7 @@ suite!(t_fixed_offset, 0, 0, 4, [enc dec delim], chrono::FixedOffset); //@ group
 suite!(t_fixed_offset_off, 0, 0, 4, [trunc], chrono::FixedOffset); //@ group=b tier=off
 suite!(t_datetime_utc, 0, 0, 4, [enc dec delim trunc], chrono::DateTime<chrono::Utc>); //@ group=b tier=off
 suite!(t_naive_date, 0, 0, 4, [enc dec delim], chrono::NaiveDate); //@ group=b tier=quick cap=900
-suite!(t_naive_date_thorough, 0, 0, 4, [trunc], chrono::NaiveDate); //@ group=b tier=thorough cap=900
+suite!(t_naive_date_thorough, 0, 0, 4, [trunc], chrono::NaiveDate); //@ group=b tier=off cap=900
 suite!(t_naive_time, 0, 0, 4, [enc dec delim], chrono::NaiveTime); //@ group=b tier=thorough cap=900
 suite!(t_naive_time_off, 0, 0, 4, [trunc], chrono::NaiveTime); //@ group=b tier=off cap=900
 suite!(t_naive_datetime_off, 0, 0, 4, [enc], chrono::NaiveDateTime); //@ group=b tier=off
